@@ -62,6 +62,19 @@ Proof. exact annex_model_rectangular. Qed.
 Theorem C12_annex_cells_width : forall missing w rs, length (annex_cells missing (w, rs)) = w.
 Proof. exact annex_cells_length. Qed.
 
+(* annex, cell-exact: output row j is, table by table, that table's j-th data row squared up to the table's own header width
+   (annex_cells (w, rows from j on): the row padded with `missing` and trimmed to w, or w times `missing` once the table is
+   exhausted) *)
+Theorem C12_annex_cell_exact : forall missing (tables : list table) outt (j : nat),
+  annex_model missing tables = (outt, None) ->
+  (j < fold_right (fun rs n => Nat.max (length rs) n) O (map (fun t => tl t) tables))%nat ->
+  nth_error outt (S j)
+  = Some (concat (map (fun wr : nat * list row => let '(w, rs) := wr in
+                         match rs with [] => repeat missing w | r :: _ => pad_to w missing (firstn w r) end)
+                      (combine (map (@length val) (map (fun t : table => match t with h :: _ => h | [] => [] end) tables))
+                               (map (skipn j) (map (fun t => tl t) tables))))).
+Proof. exact annex_model_cell_exact. Qed.
+
 Print Assumptions C12_one_row_per_row.
 Print Assumptions C12_rows_in_input_order.
 Print Assumptions C12_cut_cell.
@@ -70,3 +83,4 @@ Print Assumptions C12_convert_frame.
 Print Assumptions C12_fillright_frame.
 Print Assumptions C12_annex_rectangular.
 Print Assumptions C12_annex_cells_width.
+Print Assumptions C12_annex_cell_exact.
